@@ -42,6 +42,22 @@ __all__ = [
 ]
 
 
+def _displace(value: float, displacement: float) -> tuple[float, float, float]:
+    """Return upper point, lower point and their distance for a central difference.
+
+    The displacement is relative to `value`. A value of exactly zero cannot be
+    displaced relatively (both points would coincide and the difference quotient
+    would be 0 / 0), so it is displaced by `displacement` in absolute terms instead.
+    """
+    if value == 0:
+        return displacement, -displacement, 2 * displacement
+    return (
+        value * (1 + displacement),
+        value * (1 - displacement),
+        2 * displacement * value,
+    )
+
+
 def _response_coefficient_worker(
     parameter: str,
     *,
@@ -67,7 +83,8 @@ def _response_coefficient_worker(
         y0: Initial conditions as a dictionary {species: value}
         normalized: Whether to normalize the coefficients
         rel_norm: Whether to use relative normalization
-        displacement: Relative perturbation size (default: 1e-4)
+        displacement: Relative perturbation size (default: 1e-4); absolute for a
+            parameter whose value is exactly zero
         integrator: Integrator function to use for steady state calculation
 
     Returns:
@@ -82,7 +99,8 @@ def _response_coefficient_worker(
         old_y0 = {k: raw_variables[k].initial_value for k in y0}
         model.update_variables(y0)
 
-    model.update_parameters({parameter: old * (1 + displacement)})
+    upper_value, lower_value, distance = _displace(old, displacement)
+    model.update_parameters({parameter: upper_value})
     upper = _steady_state_worker(
         model,
         rel_norm=rel_norm,
@@ -90,7 +108,7 @@ def _response_coefficient_worker(
         y0=None,
     )
 
-    model.update_parameters({parameter: old * (1 - displacement)})
+    model.update_parameters({parameter: lower_value})
     lower = _steady_state_worker(
         model,
         rel_norm=rel_norm,
@@ -98,12 +116,8 @@ def _response_coefficient_worker(
         y0=None,
     )
 
-    conc_resp = (upper.variables.iloc[-1] - lower.variables.iloc[-1]) / (
-        2 * displacement * old
-    )  # pyright: ignore[reportOperatorIssue]
-    flux_resp = (upper.fluxes.iloc[-1] - lower.fluxes.iloc[-1]) / (
-        2 * displacement * old
-    )  # pyright: ignore[reportOperatorIssue]
+    conc_resp = (upper.variables.iloc[-1] - lower.variables.iloc[-1]) / distance
+    flux_resp = (upper.fluxes.iloc[-1] - lower.fluxes.iloc[-1]) / distance
     # Reset
     model.update_parameters({parameter: old})
     if normalized:
@@ -166,15 +180,12 @@ def variable_elasticities(
 
     for var in to_scan:
         old = variables[var]
+        upper_value, lower_value, distance = _displace(old, displacement)
 
-        upper = model.get_fluxes(
-            variables=variables | {var: old * (1 + displacement)}, time=time
-        )
-        lower = model.get_fluxes(
-            variables=variables | {var: old * (1 - displacement)}, time=time
-        )
+        upper = model.get_fluxes(variables=variables | {var: upper_value}, time=time)
+        lower = model.get_fluxes(variables=variables | {var: lower_value}, time=time)
 
-        elasticity_coef = (upper - lower) / (2 * displacement * old)
+        elasticity_coef = (upper - lower) / distance
         if normalized:
             elasticity_coef *= old / model.get_fluxes(variables=variables, time=time)
         elasticities[var] = elasticity_coef
@@ -220,16 +231,17 @@ def parameter_elasticities(
     variables = model.get_initial_conditions() if variables is None else variables
     for par in to_scan:
         old = model.get_parameter_values()[par]
+        upper_value, lower_value, distance = _displace(old, displacement)
 
-        model.update_parameters({par: old * (1 + displacement)})
+        model.update_parameters({par: upper_value})
         upper = model.get_fluxes(variables=variables, time=time)
 
-        model.update_parameters({par: old * (1 - displacement)})
+        model.update_parameters({par: lower_value})
         lower = model.get_fluxes(variables=variables, time=time)
 
         # Reset
         model.update_parameters({par: old})
-        elasticity_coef = (upper - lower) / (2 * displacement * old)
+        elasticity_coef = (upper - lower) / distance
         if normalized:
             elasticity_coef *= old / model.get_fluxes(variables=variables, time=time)
         elasticities[par] = elasticity_coef
